@@ -19,8 +19,8 @@ struct NearEq { float eps = 0.5f; bool operator()(const float &a, const float &b
 struct BucketEq { bool operator()(const int &a, const int &b) const { auto fl = [](int v) { return v >= 0 ? v / 4 : -((-v + 3) / 4); }; return fl(a) == fl(b); } };
 
 // ASSIGNW: assignment from a value of ANOTHER type that converts to T (a double to an Observable<int>, a string literal to an Observable<std::string>): "changes the held value" is judged after the conversion
-enum OpKind { ASSIGN, ADD, SUB, MUL, DIV, PREINC, POSTINC, PREDEC, POSTDEC, APPLY_ID, APPLY_SET, APPLY_ADD, SUBSCRIBE, UNSUBSCRIBE, ASSIGNW, NKINDS };
-const char *kname[] = {"assign", "add", "sub", "mul", "div", "preinc", "postinc", "predec", "postdec", "applyid", "applyset", "applyadd", "subscribe", "unsubscribe", "wassign"};
+enum OpKind { ASSIGN, ADD, SUB, MUL, DIV, PREINC, POSTINC, PREDEC, POSTDEC, APPLY_ID, APPLY_SET, APPLY_ADD, SUBSCRIBE, UNSUBSCRIBE, ASSIGNW, MOVERT, NKINDS };
+const char *kname[] = {"assign", "add", "sub", "mul", "div", "preinc", "postinc", "predec", "postdec", "applyid", "applyset", "applyadd", "subscribe", "unsubscribe", "wassign", "movert"};
 struct Op { int kind, arg; };     // arg = index into the domain's value list, or subscriber slot
 std::string op_str(const Op &o) { return std::string(kname[o.kind]) + std::to_string(o.arg); }
 bool parse_ops(const std::string &text, std::vector<Op> &h) {
@@ -113,6 +113,7 @@ template<typename D> struct Sys {
         switch (o.kind) {
         case ASSIGN: case APPLY_SET: return o.arg < (int)vals.size();
         case ASSIGNW: return o.arg < (int)D::wide().size();
+        case MOVERT: return o.arg == 0;
         case ADD: return o.arg < (int)vals.size();
         case SUB: case MUL: return D::arithmetic && o.arg < (int)vals.size();
         case DIV: return D::arithmetic && o.arg < (int)vals.size() && D::can_div(vals[o.arg]);
@@ -146,6 +147,7 @@ template<typename D> struct Sys {
         case ASSIGN: { T v = vals[o.arg]; Obs &r = (x = v); bool ch = changed(v); if (ch) mval = v; if (check) { expect(ch, mval, "operator="); if (&r != &x) bad("model:return", "operator= did not return *this"); } break; }
         case ASSIGNW: { auto w = D::wide()[o.arg]; T v = static_cast<T>(w); Obs &r = (x = w); bool ch = changed(v); if (ch) mval = v;
                         if (check) { expect(ch, mval, "operator= from a value of another type"); if (&r != &x) bad("model:return", "operator= did not return *this"); } break; }
+        case MOVERT: { Obs y(std::move(x)); if (check && !(y.value() == mval)) bad("model:move", "the move-constructed Observable does not hold the value"); x = std::move(y); if (check) expect(false, mval, "move round trip"); break; }
         case ADD: { T v = vals[o.arg]; T nv = old; nv += v; if (!D::in_bounds(nv)) { abandoned = true; return; } x += v; mval = nv; if (check) expect(changed(nv), nv, "operator+="); break; }
         case SUB: if constexpr (D::arithmetic) { T v = vals[o.arg]; T nv = old; nv -= v; if (!D::in_bounds(nv)) { abandoned = true; return; } x -= v; mval = nv; if (check) expect(changed(nv), nv, "operator-="); } break;
         case MUL: if constexpr (D::arithmetic) { T v = vals[o.arg]; T nv = old; nv *= v; if (!D::in_bounds(nv)) { abandoned = true; return; } x *= v; mval = nv; if (check) expect(changed(nv), nv, "operator*="); } break;
@@ -194,6 +196,7 @@ template<typename D> void bfs(int maxdepth) {
     for (int v = 0; v < nv; v++) for (int k : {ASSIGN, ADD, SUB, MUL, DIV, APPLY_SET}) alpha.push_back(Op{k, v});
     for (int k : {PREINC, POSTINC, PREDEC, POSTDEC, APPLY_ID, APPLY_ADD}) alpha.push_back(Op{k, 0});
     for (int v = 0; v < (int)D::wide().size(); v++) alpha.push_back(Op{ASSIGNW, v});
+    alpha.push_back(Op{MOVERT, 0});
     for (int i = 0; i < 2; i++) { alpha.push_back(Op{SUBSCRIBE, i}); alpha.push_back(Op{UNSUBSCRIBE, i}); }
     Sys<D> sys;
     for (int init = 0; init < (int)D::initials().size(); init++) {
